@@ -52,6 +52,9 @@ var impls = map[string]func(string) string{
 	"tarfs.read":      implTarfsRead,
 	"tarfs.tar":       implTarfsTar,
 	"tarfs.write":     implTarfsWrite,
+	"proto.serve":     implProtoServe,
+	"proto.client":    implProtoClient,
+	"proto.session":   implProtoSession,
 }
 
 type replayFile struct {
